@@ -369,14 +369,43 @@ def argorder(prog, rep):
         for st, t in _nquad_calls(fn, b):
                     bd = bind(t)
                     inf_lim = ("bin", "*", ("list", (("tuple", (("const", 0), G("numpy.inf"))),)), ("bin", "-", nd, ("const", 1)))
+                    others = ao[2] if okao else None
+
+                    def own_ranges(r0):
+                        """the ranges of the n_dim - 1 integrated variables: one range per position, each from the variable's own quantiles
+                        (decided in the factory, _range_factory); the fixed (0, inf) of the original code is named as the defect"""
+                        if algebra.same(r0, inf_lim):
+                            rep.fail("C06.ranges", f"{q}:holds-the-mass", fn.where(st),
+                                     "every integrated variable gets the fixed range (0, inf): QUADPACK maps it onto a fixed set of nodes, and a density that is narrow "
+                                     "against its location (a conditioning variable with a coefficient of variation below ~5 %: pressure ~ Weibull(35, 3, 980)) falls between "
+                                     "them - marginal_pdf / marginal_cdf return 0 (1e-9 ... 1e-47) without a warning while the joint cdf is right; integrate each variable "
+                                     "between its own extreme quantiles")
+                            return True    # the positional obligations below are those of the old form
+                        if not (r0[0] == "comp" and r0[1] == "list" and r0[4] == ("call", G("range"), (("bin", "-", nd, ("const", 1)),), ()) and not r0[5]):
+                            return False
+                        el = r0[2]
+                        pos = ("idx", r0[3], "range", (("bin", "-", nd, ("const", 1)),))
+                        if not (el[0] == "call" and el[1][0] == "attr" and el[1][1] == SELF and len(el[2]) == 3 and not el[3]):
+                            return False
+                        ord_t, pos_t, dim_t = el[2]
+                        full = ("bin", "+", others, ("list", (DIM,))) if others is not None else None
+                        ord_ok = others is not None and ord_t in (others, ("sub", full, ("slice", NONE, ("const", -1), NONE)))
+                        rep.check(ord_ok and pos_t == pos and dim_t == DIM, "C06.ranges", f"{q}:positions", fn.where(st),
+                                  "range k is built for position k of the integration order, with the order and dim the integrand uses",
+                                  f"the ranges must be built for positions 0 .. n_dim - 2 of the SAME integration order the integrand is wrapped for (and the same dim); found {show(el)[:160]}")
+                        fac = prog.lookup_method(fn.cls, el[1][2])
+                        if fac is None:
+                            return False
+                        _range_factory(prog, rep, fac)
+                        return True
                     if name == "marginal_pdf":
                         a = bd.get("args") if bd else None
-                        okc = bool(bd) and algebra.same(bd.get("ranges", NONE), inf_lim) and a is not None and a[0] in ("list", "tuple") and len(a[1]) == 1 and a[1][0][0] == "sub" and a[1][0][1] == P("x")
+                        okc = bool(bd) and own_ranges(bd.get("ranges", NONE)) and a is not None and a[0] in ("list", "tuple") and len(a[1]) == 1 and a[1][0][0] == "sub" and a[1][0][1] == P("x")
                         xi = a[1][0][2] if okc else None
-                        why = f"marginal_pdf must integrate the other n_dim-1 variables over (0, inf) and pass x_i through args=[x_i]; found {show(t)[:200]}"
+                        why = f"marginal_pdf must integrate the other n_dim-1 variables, one range per variable, and pass x_i through args=[x_i]; found {show(t)[:200]}"
                     else:
                         r = bd.get("ranges") if bd else None
-                        okc = bool(r) and r[0] == "bin" and r[1] == "+" and algebra.same(r[2], inf_lim) and r[3][0] == "list" and len(r[3][1]) == 1
+                        okc = bool(r) and r[0] == "bin" and r[1] == "+" and own_ranges(r[2]) and r[3][0] == "list" and len(r[3][1]) == 1
                         xi = None
                         if okc:
                             last = r[3][1][0]
@@ -388,6 +417,97 @@ def argorder(prog, rep):
                         okc = _result_rows(fn, b, t) == [xi]
                         why = "the integral of point i must be stored at index i of the result"
         rep.check(okc, "C06.argorder", f"{q}:limits", fn.where(), "limits / args in the position of dim; result at its own index", why)
+
+
+def _num(t):
+    """value of a constant arithmetic term, else None"""
+    if t[0] == "const" and isinstance(t[1], (int, float)) and not isinstance(t[1], bool):
+        return float(t[1])
+    if t[0] == "neg":
+        v = _num(t[1])
+        return None if v is None else -v
+    if t[0] == "bin" and t[1] in "+-*/":
+        a, b_ = _num(t[2]), _num(t[3])
+        if a is None or b_ is None:
+            return None
+        return {"+": a + b_, "-": a - b_, "*": a * b_, "/": a / b_ if b_ else None}[t[1]]
+    return None
+
+
+_range_done = set()
+
+
+def _range_factory(prog, rep, fac):
+    """fac(integral_order, position, dim) returns the range callable nquad calls with (values of the variables integrated further out..., value of
+    variable dim).  Decided here: the range is the pair of extreme quantiles of THE variable at that position (its own distribution), given the value of
+    ITS conditioning variable read from the argument position that variable has in what nquad hands over."""
+    q = fac.qualname
+    if q in _range_done:
+        return
+    _range_done.add(q)
+    rep.analysed(fac)
+    pp = [p_ for p_ in fac.positional_params if p_ != "self"]
+    if len(pp) != 3:
+        raise AnalysisError(f"{q}: expected (integral_order, position, dim)")
+    ORD, POS, DIMP = (P(x) for x in pp)
+    bf = builder(prog, fac, inline=False)
+    rets = [s_ for s_ in cfg_of(fac).all_stmts() if isinstance(s_, ast.Return)]
+    rt = bf.term(rets[-1].value, rets[-1]) if rets else NONE
+    inner = prog.functions.get(rt[1]) if rt[0] == "func" else None
+    if inner is None or inner.node.args.vararg is None:
+        rep.fail("C06.ranges", f"{q}:callable", fac.where(), f"the range must be a *args callable of this package (nquad hands it the outer variables); found {show(rt)[:80]}")
+        return
+    ARGS = P(inner.node.args.vararg.arg)
+    bi = builder(prog, inner, inline=False, guarded=True)
+    irets = [s_ for s_ in cfg_of(inner).all_stmts() if isinstance(s_, ast.Return)]
+    t = bi.term(irets[-1].value, irets[-1]) if len(irets) == 1 else NONE
+    IDX = ("sub", ORD, POS)
+    DIST = ("sub", ("attr", SELF, "distributions"), IDX)
+    COND = ("sub", ("attr", SELF, "conditional_on"), IDX)
+    from vstat.terms import top_alts as _ta
+    from vstat.terms import degrade as _dg
+    ok_q = ok_p = ok_g = t[0] == "tuple" and len(t[1]) == 2
+    why_q = why_g = f"found {show(t)[:200]}"
+    if ok_q:
+        lo_alts, hi_alts = _ta(t[1][0]), _ta(t[1][1])
+        ok_q = len(lo_alts) == len(hi_alts) and len(lo_alts) >= 1
+        seen_plain = seen_given = False
+        for (ll, lo), (hl, hi) in zip(sorted(lo_alts, key=repr), sorted(hi_alts, key=repr)):
+            if not (lo[0] == "sub" and hi[0] == "sub" and lo[2] == ("const", 0) and hi[2] == ("const", 1) and lo[1] == hi[1]):
+                ok_q = False
+                continue
+            c = lo[1]
+            if not (c[0] == "call" and c[1] == ("attr", DIST, "icdf") and len(c[2]) == 1):
+                ok_q = False
+                why_q = f"the limits must be quantiles of the distribution of the variable at this position (self.distributions[integral_order[position]].icdf); found {show(c)[:160]}"
+                continue
+            pr = c[2][0]
+            pr = pr[2][0] if pr[0] == "call" and pr[1] in (G("numpy.array"), G("numpy.asarray")) and len(pr[2]) == 1 else pr
+            vals = [_num(x) for x in pr[1]] if pr[0] in ("list", "tuple") and len(pr[1]) == 2 else [None]
+            ok_p = ok_p and None not in vals and 0 < vals[0] <= 1e-6 and 1 - 1e-6 <= vals[1] < 1
+            kw = dict(c[3])
+            lits = {_dg(l) for l in ll}
+            if "given" in kw:
+                seen_given = True
+                g = kw["given"]
+                g = g[2][1] if g[0] == "call" and g[1] == G("numpy.full") and len(g[2]) == 2 else g
+                outer_l = ("sub", ORD, ("slice", ("bin", "+", POS, ("const", 1)), NONE, NONE))
+                outers = [("bin", "+", o_, ("list", (DIMP,))) for o_ in (outer_l, ("call", G("list"), (outer_l,), ()))]
+                want = [("sub", ARGS, ("call", ("attr", o_, "index"), (COND,), ())) for o_ in outers]
+                good = g in want and ("not", ("isnone", COND)) in lits and set(kw) == {"given"}
+                if not good:
+                    ok_g = False
+                    why_g = (f"a conditional variable's quantiles are those GIVEN its conditioning variable, whose value nquad passes at position "
+                             f"(integral_order[position + 1:] + [dim]).index(conditional_on[idx]); found given={show(kw['given'])[:200]} under {[show(l)[:60] for l in ll]}")
+            else:
+                seen_plain = True
+                if ("isnone", COND) not in lits:
+                    ok_g = False
+                    why_g = "the unconditional quantiles may be used only where the variable is not conditional (conditional_on[idx] is None)"
+        ok_g = ok_g and seen_plain and seen_given
+    rep.check(ok_q, "C06.ranges", f"{q}:own-quantiles", fac.where(), "the range of a variable is (icdf(p_lo), icdf(p_hi)) of its own distribution", why_q)
+    rep.check(ok_p, "C06.ranges", f"{q}:probabilities", fac.where(), "p_lo <= 1e-6 and p_hi >= 1 - 1e-6", "the two quantile levels must leave out a negligible mass only (p_lo <= 1e-6, p_hi >= 1 - 1e-6)")
+    rep.check(ok_g, "C06.ranges", f"{q}:given", fac.where(), "conditional quantiles given the value nquad passes for the conditioning variable", why_g)
 
 
 def delegate(prog, rep):
